@@ -81,6 +81,9 @@ def body(chk):
             cases.append(dict(level="1.5", seed=chk.seed + 820 + j, k=j, nfp=nfp, files=("VOL",), images=(("HH", None, 1, 1),), fs="local", informational=j, stamp=f"informational-{j}"))
     for nfp in (3, 5):   # ... and the count left blank: refusing that file is fine, opening it with other root attributes is not
         cases.append(dict(level="1.5", seed=chk.seed + 830, k=1, nfp=nfp, files=("VOL",), images=(("HH", None, 1, 1),), fs="local", may_reject="or-right", blank=[fcount], stamp="text-count-blank"))
+    for j, c in enumerate(cases):   # rotating process-wide xarray options of the caller
+        if j % 4 == 1 and not c.get("may_reject"):
+            c["xr_options"] = ({"keep_attrs": False}, {"keep_attrs": True}, {"keep_attrs": False, "display_width": 40, "arithmetic_join": "exact"})[(j // 4) % 3]
     results, total = lc.replay(chk, cases, "volume", lambda c: f"plan={c['k']}{'r' if c.get('random_classes') else ''}:nfp={c.get('nfp')}" + (f":stamp={c['stamp'][12:]}" if c.get("stamp") else ""))
     ok = next(r for r in results if r["open"] == "ok" and not r["case"].get("may_reject"))
     chk.sample({"plan": ok["case"]["k"], "file_pointer_records": ok["case"].get("nfp"), "attributes_compared": ok["n"]})
